@@ -25,3 +25,23 @@ func VerifPermTable() map[model.CommandMode][2]int {
 	}
 	return out
 }
+
+// Crypto primitives (C22).
+func VerifEncryptBytes(b []byte, objNr, genNr int, encKey []byte, needAES bool, r int) ([]byte, error) {
+	return encryptBytes(b, objNr, genNr, encKey, needAES, r)
+}
+func VerifDecryptBytes(b []byte, objNr, genNr int, encKey []byte, needAES bool, r int) ([]byte, error) {
+	return decryptBytes(b, objNr, genNr, encKey, needAES, r)
+}
+func VerifEncryptStream(b []byte, objNr, genNr int, encKey []byte, needAES bool, r int) ([]byte, error) {
+	return encryptStream(b, objNr, genNr, encKey, needAES, r)
+}
+func VerifDecryptStream(b []byte, objNr, genNr int, encKey []byte, needAES bool, r int) ([]byte, error) {
+	return decryptStream(b, objNr, genNr, encKey, needAES, r)
+}
+func VerifEncryptStringLiteral(sl types.StringLiteral, objNr, genNr int, key []byte, needAES bool, r int) (*types.StringLiteral, error) {
+	return encryptStringLiteral(sl, objNr, genNr, key, needAES, r)
+}
+func VerifDecryptStringLiteral(sl types.StringLiteral, objNr, genNr int, key []byte, needAES bool, r int) (*types.StringLiteral, error) {
+	return decryptStringLiteral(sl, objNr, genNr, key, needAES, r)
+}
